@@ -17,7 +17,7 @@
   revision and the bytes were stored as passed ∨ the bytes are the resolver's merge of
   (state at `r.base`, state at the predecessor, wanted) — `Merged`).
 -/
-import Proofs.StoreRulesThm
+import Proofs.StoreRulesC03
 namespace Props.C03
 open ZodbModel ZodbModel.Resolve ZodbModel.StoreRules
 
@@ -93,45 +93,8 @@ theorem store_succeeds_only_if (E : Env) (k : Kind) (base : Hist) (hb : Sorted b
       s.lock = some t ∧ ∃ ct, currentTid s.view oid = some ct ∧ serial ≠ ct ∧
         ∃ rev, (step E s (.store t oid serial data)).sys.staged = rev :: s.staged ∧
           rev.oid = oid ∧ rev.base = serial ∧ rev.wanted = data ∧
-          Merged E (loadSerialK k s.hist base) ct rev) := by
-  have hi := Proofs.StoreRules.reachable_inv E k base hb s h
-  by_cases hl : s.lock = some t
-  · rw [Proofs.StoreRules.step_store_eq E k base s hi t hl]
-    have hv : viewOf s.kind s.hist s.base = s.view := rfl
-    cases Proofs.StoreRules.storeSpec_outcome E s oid serial data with
-    | conflict hout _ _ => rw [hout]; exact ⟨fun h => (by cases h), fun h => (by cases h)⟩
-    | stored rev hoid hbase hwanted hok hsys hout =>
-      rw [hout, hsys]
-      unfold RevOK at hok
-      rw [hv, hoid] at hok
-      constructor
-      · intro ho
-        refine ⟨hl, ?_⟩
-        cases hc : currentTid s.view oid with
-        | none => left; rfl
-        | some ct =>
-          right
-          rw [hc] at hok
-          rcases hok with ⟨h1, _, _⟩ | ⟨_, h2, _⟩
-          · rw [← h1, hbase]
-          · rw [h2] at ho; cases ho
-      · intro ho
-        refine ⟨hl, ?_⟩
-        cases hc : currentTid s.view oid with
-        | none =>
-          rw [hc] at hok
-          rw [hok.2] at ho
-          cases ho
-        | some ct =>
-          rw [hc] at hok
-          rcases hok with ⟨_, _, h3⟩ | ⟨h1, _, h3⟩
-          · rw [h3] at ho; cases ho
-          · refine ⟨ct, rfl, by rw [← hbase]; exact h1, rev, rfl, hoid, hbase, hwanted, ?_⟩
-            rw [hi.kind, hi.base] at h3
-            exact h3
-  · have : (step E s (.store t oid serial data)).out = .txnError := by simp [step, hl]
-    rw [this]
-    exact ⟨fun h => (by cases h), fun h => (by cases h)⟩
+          Merged E (loadSerialK k s.hist base) ct rev) :=
+  Proofs.C03Props.store_succeeds_only_if E k base hb s h t oid serial data
 
 /-- A `store` that fails with ConflictError stores nothing: the whole state is as before (only the
     process-wide `_unresolvable` class cache may have grown), and after the abort that follows the
@@ -143,23 +106,8 @@ theorem conflict_stores_nothing (E : Env) (k : Kind) (base : Hist) (hb : Sorted 
       { s with cache := (step E s (.store t oid serial data)).sys.cache } ∧
     (step E (step E s (.store t oid serial data)).sys (.abort t)).sys.hist = s.hist ∧
     (step E (step E s (.store t oid serial data)).sys (.abort t)).sys.staged = [] ∧
-    (step E (step E s (.store t oid serial data)).sys (.abort t)).sys.lock = none := by
-  have hi := Proofs.StoreRules.reachable_inv E k base hb s h
-  by_cases hl : s.lock = some t
-  · rw [Proofs.StoreRules.step_store_eq E k base s hi t hl] at hc ⊢
-    cases Proofs.StoreRules.storeSpec_outcome E s oid serial data with
-    | conflict hout hsys _ =>
-      refine ⟨hsys, ?_⟩
-      rw [hsys]
-      simp only [step]
-      rw [if_pos hl]
-      exact ⟨rfl, rfl, rfl⟩
-    | stored rev _ _ _ _ _ hout =>
-      rw [hout] at hc
-      split at hc <;> cases hc
-  · have : (step E s (.store t oid serial data)).out = .txnError := by simp [step, hl]
-    rw [this] at hc
-    cases hc
+    (step E (step E s (.store t oid serial data)).sys (.abort t)).sys.lock = none :=
+  Proofs.C03Props.conflict_stores_nothing E k base hb s h t oid serial data hc
 
 /-- A conflicting `store` on a MappingStorage (no resolution) always fails. -/
 theorem mapping_conflict_fails (E : Env) (base : Hist) (hb : Sorted base) (s : Sys)
@@ -201,44 +149,8 @@ theorem readcurrent_checked (E : Env) (k : Kind) (base : Hist) (hb : Sorted base
         (step E s (.check t oid serial)).sys = { s with checked := (oid, serial) :: s.checked }) ∧
     (∀ p ∈ s.checked, currentTid s.view p.1 = some p.2) ∧
     (∀ newer t older, s.hist = newer ++ t :: older →
-        ∀ p ∈ t.checked, currentTid (viewOf k older base) p.1 = some p.2) := by
-  have hi := Proofs.StoreRules.reachable_inv E k base hb s h
-  refine ⟨?_, hi.checked, ?_⟩
-  · intro t oid serial ho
-    have hout := Proofs.StoreRules.step_check_out E k base s hi t oid serial
-    rw [ho] at hout
-    by_cases hl : s.lock = some t
-    · rw [if_pos hl] at hout
-      refine ⟨hl, ?_⟩
-      cases hc : currentTid s.view oid with
-      | none => rw [hc] at hout; cases hout
-      | some ct =>
-        rw [hc] at hout
-        simp only at hout
-        by_cases he : ct = serial
-        · refine ⟨by rw [he], ?_⟩
-          rcases Proofs.StoreRules.step_check_sys E s t oid serial with h1 | ⟨_, h2⟩
-          · -- the step changed nothing although it returned ok: impossible
-            exfalso
-            have hcv := Proofs.StoreRules.curK_eq_view (k := s.kind) (hist := s.hist) (base := s.base)
-              hi.sorted oid
-            have hv : viewOf s.kind s.hist s.base = s.view := rfl
-            rw [hv, hc] at hcv
-            have : (step E s (.check t oid serial)).sys =
-                { s with checked := (oid, serial) :: s.checked } := by
-              simp only [step]
-              rw [if_pos hl, hcv]
-              simp only [he, if_true]
-            rw [this] at h1
-            have := congrArg Sys.checked h1
-            simp at this
-          · exact h2
-        · rw [if_neg he] at hout; cases hout
-    · rw [if_neg hl] at hout; cases hout
-  · intro newer t older hs
-    have hr := hi.rc
-    rw [hi.kind, hi.base] at hr
-    exact Proofs.StoreRules.rc_split k base s.hist hr newer t older hs
+        ∀ p ∈ t.checked, currentTid (viewOf k older base) p.1 = some p.2) :=
+  Proofs.C03Props.readcurrent_checked E k base hb s h
 
 /-- The same without the ghost list, over explicit schedules: after a successful check of
     `(oid, serial)` by the lock holder `t`, let ANY further calls of ANY transactions follow — as long
@@ -251,14 +163,19 @@ theorem readcurrent_holds_until_finish (E : Env) (k : Kind) (base : Hist) (hb : 
     (hops : ∀ op ∈ ops, op ≠ .finish t ∧ op ≠ .abort t)
     (hok : Proofs.StoreRules.RunOK E (step E s (.check t oid serial)).sys ops) :
     (run E (step E s (.check t oid serial)).sys ops).lock = some t ∧
-    currentTid (run E (step E s (.check t oid serial)).sys ops).view oid = some serial := by
-  obtain ⟨hl, _, hsys⟩ := (readcurrent_checked E k base hb s h).1 t oid serial hck
-  have hr : Reachable E k base (step E s (.check t oid serial)).sys := .step _ h trivial
-  have hl' : (step E s (.check t oid serial)).sys.lock = some t := by rw [hsys]; exact hl
-  obtain ⟨r1, r2⟩ := Proofs.StoreRules.run_keeps_checked E k base hb _ hr t hl' ops hops hok
-  refine ⟨r1, r2 (oid, serial) ?_⟩
-  rw [hsys]
-  exact List.mem_cons_self
+    currentTid (run E (step E s (.check t oid serial)).sys ops).view oid = some serial :=
+  Proofs.C03Props.readcurrent_holds_until_finish E k base hb s h t oid serial hck ops hops hok
+
+/-- A retry can succeed: whoever holds the lock and passes the serial that is current NOW (what a
+    connection reads after it invalidated its stale copy) passes both the readCurrent check and the
+    store — conflicts are never sticky. -/
+theorem retry_can_succeed (E : Env) (k : Kind) (base : Hist) (hb : Sorted base) (s : Sys)
+    (h : Reachable E k base s) (t : TxnId) (hl : s.lock = some t) (oid : Oid) (ct : Tid)
+    (data : Record) (hc : currentTid s.view oid = some ct) :
+    (step E s (.check t oid ct)).out = .ok ∧ (step E s (.store t oid ct data)).out = .ok ∧
+    (step E s (.store t oid ct data)).sys.staged =
+      { oid := oid, base := ct, data := data, wanted := data, resolved := false } :: s.staged :=
+  Proofs.C03Props.retry_can_succeed E k base hb s h t hl oid ct data hc
 
 /-- tids strictly increase along the committed history (for a DemoStorage: changes above base). -/
 theorem tids_strictly_increase (E : Env) (k : Kind) (base : Hist) (hb : Sorted base) (s : Sys)
